@@ -235,7 +235,7 @@ class C23(Check):
             if not path.rsplit("/", 1)[-1].startswith("l1"):
                 continue
             gone = [t for t in ino.data if t != HEADER and t in pos and pos[t] not in seen]
-            if how == "rename-over" and path == oldest:
+            if how in ("rename-over", "remove") and path == oldest:
                 if gone:
                     out.probe("designed-drop")
                 continue
@@ -252,7 +252,7 @@ class C23(Check):
                     out.probe("size-gated")
         designed = set()
         for path, how, ino in fs.retired:
-            if how == "rename-over" and path == oldest:
+            if how in ("rename-over", "remove") and path == oldest:
                 designed.update(pos[t] for t in ino.data if t in pos)
         if not killed:
             # everything written (and not lost in the buffers of a process that died earlier) and not dropped by design is on disk
